@@ -23,4 +23,12 @@ PROPS = {
                                      "not modelled: object.record / RegisterTrie (which words the REPL inserts)"],
         "assumptions": ["Go pointer sharing of the end marker is unobservable (Insert never descends into it; shown by the model's case split and exercised by the suite)"],
     },
+    "C16": {
+        "proof_modules": ["GrolProofs.Props.C16"],
+        "theorems": ["Grol.Lexer.C16.placeholder"],
+        "suites": ["lex"],
+        "rule": "lex suite (placeholder)",
+        "trusted_base": COMMON_TB,
+        "assumptions": [],
+    },
 }
